@@ -771,3 +771,40 @@ def wire_tree(tree):
         q = 'N' if ch['charge'] is None else '%d:%d:%s' % (ch['charge'][0], int(ch['charge'][1]), _w_mods(ch['charge'][2]))
         parts.append('|'.join([st, sg, _w_mods(ch['cterm']), q]))
     return '~'.join(parts)
+
+
+# ----------------------------------------------------------------------------- fresh interpreter
+
+def run_fresh(code, timeout=600):
+    """run python code in a fresh interpreter against the same repo; returns (returncode, stdout)"""
+    import subprocess, sys
+    from ..core import REPO
+    env = dict(os.environ)
+    env['PYTHONPATH'] = os.path.join(REPO, 'src') + os.pathsep + env.get('PYTHONPATH', '')
+    env['PYTHONWARNINGS'] = 'ignore'
+    p = subprocess.run([sys.executable, '-W', 'ignore', '-c', code], capture_output=True, text=True, env=env, cwd='/tmp',
+                       timeout=timeout)
+    return p.returncode, p.stdout + p.stderr[-2000:]
+
+
+def fresh_verdicts(items):
+    """items: [(text, params)]; in ONE fresh interpreter, evaluating each item FIRST-HAND is impossible, so every item is
+    evaluated in the order given but before any valid call: True iff mass(text, **params) raises a ValueError or differs
+    from nothing being there is not decidable here, so: True iff mass raises ValueError-family (the value is unresolvable
+    in a clean state)"""
+    code = ('import json, sys, peptacular as pt\n'
+            'items = json.loads(sys.stdin.read()) if False else json.loads(%r)\n'
+            'out = []\n'
+            'for text, prm in items:\n'
+            '    try:\n'
+            '        pt.mass(text, **prm); out.append(False)\n'
+            '    except ValueError:\n'
+            '        out.append(True)\n'
+            '    except Exception:\n'
+            '        out.append(True)\n'
+            'print("VERDICTS" + json.dumps(out))\n') % json.dumps(items)
+    rc, out = run_fresh(code)
+    for line in out.split('\n'):
+        if line.startswith('VERDICTS'):
+            return json.loads(line[len('VERDICTS'):])
+    raise RuntimeError('fresh interpreter failed: ' + out[-500:])
